@@ -1131,6 +1131,9 @@ func (in *Interp) show(v Value) string {
 		}
 		return fmt.Sprintf("%s(%s)", x.T.String(), in.show(x.V))
 	case *Str:
+		if x.A != nil {
+			return fmt.Sprintf("<aliasing string len %d>", x.A.Len)
+		}
 		if x.B == nil {
 			return fmt.Sprintf("%q", x.S)
 		}
